@@ -375,6 +375,13 @@ def run_states(case):
                 xm, Tn, dT = float(d.composition[n, 0]), float(d.temperature[n]), float(m.constraints.maxTempChange)
                 g0 = float(th.getDrivingForce(xm, Tn, precPhase=nm)[0])
                 gs = [float(th.getDrivingForce(xm, Tn + q * dT, precPhase=nm)[0]) for q in (-1.0, 1.0)]
+                # with elastic strain energy the critical radius follows the NET driving force: the volumetric elastic term is what
+                # separates the recorded driving force from the chemical one of the backend at the same temperature
+                vmb = float(m.precipitateParameters[p].volume.Vm)
+                eel = g0 / vmb - dG
+                if abs(eel) <= 1e-9 * abs(dG):
+                    eel = 0.0
+                g0, gs = g0 - eel * vmb, [v - eel * vmb for v in gs]
                 if g0 > 0 and min(gs) > 0:
                     Rlo, Rhi = Rc * min(1.0, g0 / max(gs)), Rc * max(1.0, g0 / min(gs))
                     stats['widened'] = stats.get('widened', 0) + 1
